@@ -36,7 +36,11 @@ RULE = ("operations on the real internal/aes_ige code: doAES256IGEencrypt/decryp
         "crypto/sha1 implementation written from the definitions) for every answer length 0..512, every padding "
         "amount 0..15 under every leading-zero combination; long payloads (4-32 KiB) for both directions of the "
         "key-exchange wrapper and the unpadded hook (256..2048 blocks); the unpadded hook and garbage ciphertexts. Every "
-        "argument of every operation lives in long-lived caller memory (byte slots, big.Ints) refilled in place: each "
+        "argument of every operation lives in long-lived caller memory refilled in place (big.Ints; every byte-string argument a "
+        "window into ONE long-lived array, between 48-byte guard zones of a never-zero pattern or — a quarter of the operations "
+        "— back to back with the next argument; the slice handed over has capacity to the end of the array (half of the "
+        "operations), exactly its length, or its length + 1..15; the whole array is compared with its image from just before "
+        "the call, outside and inside the arguments, when the call has returned and again after the collections): each "
         "operation runs first with the complement of its arguments, then with its own (reported) ones, and the "
         "arguments are overwritten after the call returned (the result must not move). After every operation has "
         "returned and its buffers were compared, two garbage collections are forced and the finalizer goroutine is "
